@@ -276,32 +276,116 @@ const SHAPES: [Shape; 10] = [
 ];
 
 struct Acl {
-    what: &'static str,
-    deny: &'static [&'static str],
-    allow: &'static [&'static str],
-    src: &'static str,
+    what: String,
+    deny: Vec<String>,
+    allow: Vec<String>,
+    src: String,
 }
 
 const V4: &str = "192.0.2.1:5353";
 const V4MAPPED: &str = "[::ffff:192.0.2.1]:5353";
 const V6: &str = "[2001:db8::1]:5353";
 
-const ACLS: [Acl; 14] = [
-    Acl { what: "no lists", deny: &[], allow: &[], src: V4 },
-    Acl { what: "deny /24 containing src", deny: &["192.0.2.0/24"], allow: &[], src: V4 },
-    Acl { what: "deny /32 = src", deny: &["192.0.2.1/32"], allow: &[], src: V4 },
-    Acl { what: "deny list without src", deny: &["10.0.0.0/8"], allow: &[], src: V4 },
-    Acl { what: "deny /8 + allow /32 = src", deny: &["192.0.0.0/8"], allow: &["192.0.2.1/32"], src: V4 },
-    Acl { what: "deny /8 + allow /32 other", deny: &["192.0.0.0/8"], allow: &["192.0.2.2/32"], src: V4 },
-    Acl { what: "allow list without src", deny: &[], allow: &["198.51.100.0/24"], src: V4 },
-    Acl { what: "allow list with src", deny: &[], allow: &["192.0.2.0/24"], src: V4 },
-    Acl { what: "v4-mapped src, deny v4 /24", deny: &["192.0.2.0/24"], allow: &[], src: V4MAPPED },
-    Acl { what: "v4-mapped src, deny /8 + allow /32", deny: &["192.0.0.0/8"], allow: &["192.0.2.1/32"], src: V4MAPPED },
-    Acl { what: "v6 src, deny v6 /32", deny: &["2001:db8::/32"], allow: &[], src: V6 },
-    Acl { what: "v6 src, deny v4 only", deny: &["10.0.0.0/8"], allow: &[], src: V6 },
-    Acl { what: "deny /32 and allow /32 both = src", deny: &["192.0.2.1/32"], allow: &["192.0.2.1/32"], src: V4 },
-    Acl { what: "deny /24 + allow /16 (less specific)", deny: &["192.0.2.0/24"], allow: &["192.0.0.0/16"], src: V4 },
+/// The hand-picked access configurations used in the big request products.
+const N_BASE_ACLS: usize = 14;
+const BASE_ACLS: [(&str, &[&str], &[&str], &str); N_BASE_ACLS] = [
+    ("no lists", &[], &[], V4),
+    ("deny /24 containing src", &["192.0.2.0/24"], &[], V4),
+    ("deny /32 = src", &["192.0.2.1/32"], &[], V4),
+    ("deny list without src", &["10.0.0.0/8"], &[], V4),
+    ("deny /8 + allow /32 = src", &["192.0.0.0/8"], &["192.0.2.1/32"], V4),
+    ("deny /8 + allow /32 other", &["192.0.0.0/8"], &["192.0.2.2/32"], V4),
+    ("allow list without src", &[], &["198.51.100.0/24"], V4),
+    ("allow list with src", &[], &["192.0.2.0/24"], V4),
+    ("v4-mapped src, deny v4 /24", &["192.0.2.0/24"], &[], V4MAPPED),
+    ("v4-mapped src, deny /8 + allow /32", &["192.0.0.0/8"], &["192.0.2.1/32"], V4MAPPED),
+    ("v6 src, deny v6 /32", &["2001:db8::/32"], &[], V6),
+    ("v6 src, deny v4 only", &["10.0.0.0/8"], &[], V6),
+    ("deny /32 and allow /32 both = src", &["192.0.2.1/32"], &["192.0.2.1/32"], V4),
+    ("deny /24 + allow /16 (less specific)", &["192.0.2.0/24"], &["192.0.0.0/16"], V4),
 ];
+
+/// The access PRODUCT: 6 sources x (deny list, allow list) with each list any subset of <= 3
+/// elements (quick: <= 2) of a 10-element net alphabet chosen relative to the source: its own
+/// host net, covering nets of its own family, the nets the source would match under a WRONG
+/// family reading (v4 reading of a v6 source, v6 reading of a v4 source), catch-alls and unrelated
+/// nets of both families.
+const ACCESS_SOURCES: [(&str, [&str; 10]); 6] = [
+    (
+        "192.0.2.1",
+        ["192.0.2.1/32", "192.0.2.0/24", "192.0.0.0/8", "::ffff:0:0/96", "::ffff:192.0.2.1/128", "::192.0.2.1/128", "::/0", "0.0.0.0/0", "198.51.100.0/24", "2001:db8:ffff::/48"],
+    ),
+    (
+        "::ffff:192.0.2.1",
+        ["192.0.2.1/32", "192.0.2.0/24", "192.0.0.0/8", "::ffff:0:0/96", "::ffff:192.0.2.1/128", "::192.0.2.1/128", "::/0", "0.0.0.0/0", "198.51.100.0/24", "2001:db8:ffff::/48"],
+    ),
+    (
+        "::1",
+        ["::1/128", "::/64", "::/96", "0.0.0.1/32", "0.0.0.0/8", "127.0.0.0/8", "::/0", "0.0.0.0/0", "198.51.100.0/24", "2001:db8:ffff::/48"],
+    ),
+    (
+        "::192.0.2.1",
+        ["::192.0.2.1/128", "::/64", "::/96", "192.0.2.1/32", "192.0.2.0/24", "::ffff:192.0.2.1/128", "::/0", "0.0.0.0/0", "198.51.100.0/24", "2001:db8:ffff::/48"],
+    ),
+    (
+        "2001:db8::1",
+        ["2001:db8::1/128", "2001:db8::/64", "2001:db8::/32", "::/96", "0.0.0.1/32", "::ffff:0:0/96", "::/0", "0.0.0.0/0", "198.51.100.0/24", "2001:db8:ffff::/48"],
+    ),
+    (
+        "fe80::1",
+        ["fe80::1/128", "fe80::/64", "fe80::/10", "254.128.0.0/16", "0.0.0.1/32", "::ffff:0:0/96", "::/0", "0.0.0.0/0", "198.51.100.0/24", "2001:db8:ffff::/48"],
+    ),
+];
+
+struct AclTable {
+    all: Vec<Acl>,
+    /// configurations `N_BASE_ACLS..quick_end` are the product with lists of <= 2 entries
+    quick_end: usize,
+}
+
+fn acl_table() -> &'static AclTable {
+    static T: std::sync::OnceLock<AclTable> = std::sync::OnceLock::new();
+    T.get_or_init(|| {
+        let mut all: Vec<Acl> = BASE_ACLS
+            .iter()
+            .map(|(what, deny, allow, src)| Acl {
+                what: what.to_string(),
+                deny: deny.iter().map(|s| s.to_string()).collect(),
+                allow: allow.iter().map(|s| s.to_string()).collect(),
+                src: src.to_string(),
+            })
+            .collect();
+        let mut subsets: Vec<Vec<usize>> = vec![];
+        for k in 0..=3 {
+            subsets.extend(vcore::enumerate::combinations(10, k));
+        }
+        let mut quick_end = 0;
+        for pass in 0..2 {
+            for (src, nets) in ACCESS_SOURCES.iter() {
+                for d in &subsets {
+                    for a in &subsets {
+                        let small = d.len() <= 2 && a.len() <= 2;
+                        if small != (pass == 0) {
+                            continue;
+                        }
+                        let deny: Vec<String> = d.iter().map(|i| nets[*i].to_string()).collect();
+                        let allow: Vec<String> = a.iter().map(|i| nets[*i].to_string()).collect();
+                        let sock = if src.contains(':') { format!("[{src}]:5353") } else { format!("{src}:5353") };
+                        all.push(Acl { what: format!("product: src {src} deny {deny:?} allow {allow:?}"), deny, allow, src: sock });
+                    }
+                }
+            }
+            if pass == 0 {
+                quick_end = all.len();
+            }
+        }
+        AclTable { all, quick_end }
+    })
+}
+
+fn acls() -> &'static [Acl] {
+    &acl_table().all
+}
 
 // ------------------------------------------------------------------------------------------
 // real server objects
@@ -408,18 +492,22 @@ fn labels_of(s: &str) -> fd::Labels {
     s.split('.').filter(|l| !l.is_empty()).map(|l| l.as_bytes().to_vec()).collect()
 }
 
-fn build_srv(world: &World, shape: usize, acl: usize) -> Srv {
+type ZoneCache = std::collections::HashMap<&'static str, Arc<InMemoryZoneHandler<TokioRuntimeProvider>>>;
+
+/// The zones are never modified (the in-memory handler answers UPDATE with NOTIMP), so one zone
+/// object per origin is shared by all catalogs of a worker.
+fn build_srv(world: &World, zones: &mut ZoneCache, shape: usize, acl: usize) -> Srv {
     let sh = &SHAPES[shape];
-    let ac = &ACLS[acl];
+    let ac = &acls()[acl];
     let mut catalog = Catalog::new();
     for (i, z) in sh.zones.iter().enumerate() {
-        let zone = build_zone(z, &world.owners);
+        let zone = zones.entry(*z).or_insert_with(|| Arc::new(build_zone(z, &world.owners))).clone();
         let lname = LowerName::new(&Name::from_str(z).unwrap());
         let mut chain: Vec<Arc<dyn ZoneHandler>> = vec![];
         if sh.chained && i == 0 {
             chain.push(Arc::new(SkipAll { origin: lname.clone() }));
         }
-        chain.push(Arc::new(zone));
+        chain.push(zone);
         catalog.upsert(lname, chain);
     }
     let server = Server::with_access(
@@ -438,7 +526,8 @@ fn build_srv(world: &World, shape: usize, acl: usize) -> Srv {
 struct Worker<'w> {
     world: &'w World,
     rt: tokio::runtime::Runtime,
-    servers: Vec<Option<Srv>>,
+    servers: std::collections::HashMap<usize, Srv>,
+    zones: ZoneCache,
     probe: Vec<u8>,
     /// record the digest of every non-trivial request in the distinct set (off for the thorough
     /// F6 family, whose requests are pairwise distinct by construction and would overflow vcore's
@@ -451,7 +540,8 @@ impl<'w> Worker<'w> {
         Worker {
             world,
             rt: vsim::rt(),
-            servers: (0..SHAPES.len() * ACLS.len()).map(|_| None).collect(),
+            servers: Default::default(),
+            zones: Default::default(),
             // the fixed probe: x.a.z. TXT IN, id 0x7777, RD
             probe: build_request(0x7777, 0x0100, &name_wire("x.a.z."), 16, 1, 0),
             digests: true,
@@ -662,6 +752,9 @@ fn judge(cfg: &fd::Config, src: SocketAddr, req: &[u8], out: &[Vec<u8>], l: &mut
             _ => "expect:gate:no-enclosing-zone",
         });
     }
+    if e.tolerated.contains(&"access-verdict-open") {
+        l.outcome("expect:access-verdict-open(unjudged)");
+    }
     if !e.respond {
         if out.is_empty() {
             l.outcome(if e.why_silent == "is-a-response" { "silent:is-a-response" } else { "silent:shorter-than-header" });
@@ -848,7 +941,8 @@ fn case_json(family: &str, pl: Place, req: &[u8], out: Option<&[Vec<u8>]>) -> Va
     json!({
         "family": family,
         "shape": pl.shape, "shape_what": SHAPES[pl.shape].what,
-        "acl": pl.acl, "acl_what": ACLS[pl.acl].what, "src": ACLS[pl.acl].src,
+        "acl": pl.acl, "acl_what": acls()[pl.acl].what, "src": acls()[pl.acl].src,
+        "deny": acls()[pl.acl].deny, "allow": acls()[pl.acl].allow,
         "proto": if pl.tcp { "tcp" } else { "udp" },
         "request": hex::enc(req),
         "responses": out.map(|o| o.iter().map(|r| hex::enc(r)).collect::<Vec<_>>()),
@@ -856,10 +950,10 @@ fn case_json(family: &str, pl: Place, req: &[u8], out: Option<&[Vec<u8>]>) -> Va
 }
 
 fn run_one(w: &mut Worker, family: &str, pl: Place, req: &[u8], l: &mut Local) {
-    let slot = pl.shape * ACLS.len() + pl.acl;
+    let slot = pl.shape * acls().len() + pl.acl;
     let proto = if pl.tcp { Protocol::Tcp } else { Protocol::Udp };
-    if w.servers[slot].is_none() {
-        let mut srv = build_srv(w.world, pl.shape, pl.acl);
+    if !w.servers.contains_key(&slot) {
+        let mut srv = build_srv(w.world, &mut w.zones, pl.shape, pl.acl);
         // baseline probe, judged by the same oracle
         match exec(&w.rt, &srv, &w.probe, Protocol::Udp) {
             Ok(out) => {
@@ -870,12 +964,12 @@ fn run_one(w: &mut Worker, family: &str, pl: Place, req: &[u8], l: &mut Local) {
             }
             Err(p) => l.violation(&format!("panic:{}", vcore::short_loc(&p.loc)), &p.msg, || case_json("probe", pl, &w.probe, None)),
         }
-        w.servers[slot] = Some(srv);
+        w.servers.insert(slot, srv);
     }
     l.eval();
     let mut rebuild = false;
     {
-        let srv = w.servers[slot].as_ref().unwrap();
+        let srv = w.servers.get(&slot).unwrap();
         if w.digests && req.len() >= 12 && req[2] & 0x80 == 0 {
             l.nontrivial(fnv64(req) ^ ((slot as u64 * 2 + pl.tcp as u64 + 1).wrapping_mul(0x9e3779b97f4a7c15)));
         }
@@ -917,7 +1011,8 @@ fn run_one(w: &mut Worker, family: &str, pl: Place, req: &[u8], l: &mut Local) {
         }
     }
     if rebuild {
-        w.servers[slot] = None;
+        w.servers.remove(&slot);
+        w.zones.clear();
     }
 }
 
@@ -1083,7 +1178,7 @@ fn main() {
         ctx.with_local(|l| run_one(&mut w, "replay", pl, &req, l));
         {
             // show what the reference expects and what the server sent
-            let srv = build_srv(&world, pl.shape, pl.acl);
+            let srv = build_srv(&world, &mut w.zones, pl.shape, pl.acl);
             let e = fd::expect(&srv.cfg, srv.src.ip(), &req);
             eprintln!(
                 "replay: respond={} {} id={:#06x} opcode={} parse={:?}({}) gates={:?} tolerated={:?} rcodes={} zone={:?} plain={}",
@@ -1112,7 +1207,7 @@ fn main() {
          each followed by a fixed probe query on the SAME server object. Configurations: 10 catalog shapes (single, nested 2/3, \
          siblings, root, root+z, empty, chained [skip-all, in-memory], root+a.z, z+a.a.z; every zone carries a TXT marker \
          naming itself at every queried owner it encloses) x 14 access-list/source configurations (v4, v4-mapped v6, v6) x \
-         UDP/TCP. Families: (F0b) all configurations x ALL names of 1..3 labels (+ all l1.l2.a.z.) over the label alphabet {*,a,x,z} (thorough: + {A, '.', NUL, **}) x {TXT,A,SOA} x EDNS {none,v0}; (F0) all configurations x 34 query names (apexes, names under each zone, outside every zone, root, \
+         UDP/TCP. Families: (FA) access PRODUCT: 6 sources {v4, v4-mapped, ::1, v4-compatible ::a.b.c.d, global v6, link-local} x deny list x allow list, each list EVERY subset of <= 2 (thorough <= 3) of a 10-net alphabet relative to the source (own host net, covering nets, wrong-family readings, catch-alls, unrelated nets of both families) x UDP/TCP x 2 queries, judged only where the three readings of the documented list semantics agree; (F0b) all configurations x ALL names of 1..3 labels (+ all l1.l2.a.z.) over the label alphabet {*,a,x,z} (thorough: + {A, '.', NUL, **}) x {TXT,A,SOA} x EDNS {none,v0}; (F0) all configurations x 34 query names (apexes, names under each zone, outside every zone, root, \
          label-boundary near-misses, upper/mixed case, 255- and 256-octet names, compression pointers into the header) x 6 \
          plain qtypes x EDNS {none,v0,DO} x flags x ids; (F1) all configurations x names x qtypes x EDNS {none,v0,v1,v255,..} x \
          EVERY opcode 0..15; (F2) shapes x access classes x UDP/TCP x names x 9 qtypes x 4 qclasses x 16 EDNS variants (payload \
@@ -1139,7 +1234,7 @@ fn main() {
 
     let nq = world.qn.len() as u64;
     let nshape = SHAPES.len() as u64;
-    let nacl = ACLS.len() as u64;
+    let nacl = N_BASE_ACLS as u64;
     let seed = ctx.seed;
 
     // ---- F0: zone dispatch, plain queries ---------------------------------------------------
@@ -1170,6 +1265,39 @@ fn main() {
                 if i % 100_003 == 0 {
                     l.sample(case_json("F0", pl, &req, None));
                 }
+            },
+        );
+    }
+
+    // ---- FA: access product (sources x deny lists x allow lists) ---------------------------
+    {
+        let t = acl_table();
+        let end = if thorough { t.all.len() } else { t.quick_end };
+        let n = (end - N_BASE_ACLS) as u64;
+        let reqs = [
+            build_request(0x0a0a, 0x0100, &name_wire("x.z."), 16, 1, 0),
+            build_request(0x0a0b, 0x0000, &name_wire("z."), 1, 1, 1),
+        ];
+        ctx.set("FA_access_configurations", json!(n));
+        ctx.set("FA_access_cases", json!(n * 4));
+        ctx.set("FA_sources", json!(ACCESS_SOURCES.iter().map(|s| s.0).collect::<Vec<_>>()));
+        ctx.par_run_init(
+            n,
+            32,
+            |_| Worker::new(&world),
+            |i, l, w| {
+                let acl = N_BASE_ACLS + rotate(i, n, seed) as usize;
+                for tcp in [false, true] {
+                    let pl = Place { shape: 0, acl, tcp };
+                    for r in &reqs {
+                        run_one(w, "FA", pl, r, l);
+                    }
+                    if i % 4001 == 0 && !tcp {
+                        l.sample(case_json("FA", pl, &reqs[0], None));
+                    }
+                }
+                // one server object per configuration: drop it, the product is large
+                w.servers.remove(&(acl));
             },
         );
     }
@@ -1452,7 +1580,7 @@ fn main() {
     }
 
     ctx.set("shapes", json!(SHAPES.iter().map(|s| s.what).collect::<Vec<_>>()));
-    ctx.set("access_lists", json!(ACLS.iter().map(|a| a.what).collect::<Vec<_>>()));
+    ctx.set("access_lists", json!(acls()[..N_BASE_ACLS].iter().map(|a| a.what.as_str()).collect::<Vec<_>>()));
     ctx.set("query_names", json!(world.qn.iter().map(|q| q.what).collect::<Vec<_>>()));
     ctx.set("edns_variants", json!(EDNS_NAMES));
 
@@ -1462,6 +1590,7 @@ fn main() {
         "expect:gate:unsupported-opcode",
         "expect:gate:unparsable",
         "expect:gate:denied-source",
+        "expect:access-verdict-open(unjudged)",
         "expect:gate:edns-version-gt0",
         "expect:gate:no-enclosing-zone",
         "answered:NOERROR",
